@@ -46,12 +46,21 @@ def coq_stage(prop, tier):
     info = {"obligations": 0, "discharged": 0, "axioms": [], "ok": False, "log": "", "theorems": []}
     # translator tie: regenerate theories/PySrc.v from the CURRENT sources of /repo (fail closed on unsupported syntax);
     # PySrcFacts.v is then re-checked against the regenerated text by the build below
-    rc0, out0 = sh("python3 tools/py2coq.py 2>&1", 120, VERIF)
-    translator_ok = (rc0 == 0)
+    # (theories/PySrc.v: pure helpers, tools/py2coq.py; theories/PySrcSd.v: strategy drivers, tools/py2coq_sd.py).
+    # A translator failure or a broken proof about generated code counts only for the properties that import it.
+    sys.path.insert(0, os.path.join(VERIF, "tools"))
+    from props_spec import EXTRA_IMPORTS
+    uses = EXTRA_IMPORTS.get(prop, "").split()
+    rc0, out0 = sh("python3 tools/py2coq.py --no-sd 2>&1", 120, VERIF)
+    rc0s, out0s = sh("python3 tools/py2coq_sd.py 2>&1", 120, VERIF)
+    translator_ok = (rc0 == 0 or "PySrc" not in uses) and (rc0s == 0 or "PySrcSd" not in uses)
+    info["translators"] = {"py2coq": rc0, "py2coq_sd": rc0s, "modules_imported_by_this_property": uses}
     if tier == "thorough":
         sh("make -C coq clean >/dev/null 2>&1; rm -f coq/props/*.vo coq/theories/*.vo", 120, VERIF)
-    rc, out = sh("cd coq && (test -f Makefile || coq_makefile -f _CoqProject -o Makefile >/dev/null 2>&1); timeout 1500 make -j16 2>&1 | grep -v '^Warning' | tail -30", 1600, VERIF)
-    info["log"] = ("" if translator_ok else "tools/py2coq.py failed: " + out0[-1500:] + "\n") + out[-3000:]
+    # whole project with -k (keeps everything that can be built fresh), then this property's file and the extraction
+    sh("cd coq && (test -f Makefile || coq_makefile -f _CoqProject -o Makefile >/dev/null 2>&1); timeout 1500 make -k -j16 >/dev/null 2>&1", 1600, VERIF)
+    rc, out = sh(f"cd coq && timeout 1500 make -j16 props/{prop}.vo theories/Extract.vo 2>&1 | grep -v '^Warning' | tail -30", 1600, VERIF)
+    info["log"] = ("" if translator_ok else "translator failed: " + (out0 + out0s)[-1500:] + "\n") + out[-3000:]
     build_ok = (rc == 0 and "Error" not in out and translator_ok)
     # audit
     bad = []
